@@ -290,8 +290,22 @@ def Valid (inp : Input) (out : Alloc) : Prop :=
 
 instance (inp out) : Decidable (Served inp out) := by unfold Served; infer_instance
 instance (inp out) : Decidable (Justified inp out) := by unfold Justified; infer_instance
-set_option synthInstance.maxSize 512 in
-instance (inp out) : Decidable (DisjointPerChip inp out) := by unfold DisjointPerChip; infer_instance
+/-- decision procedure for `DisjointPerChip` that looks at the (cheap) overlap test first and
+finds the chips with short-circuiting lookups: quadratic in the number of ranges when no two
+ranges overlap (the same proposition is decided, see the `iff`) -/
+instance (inp out) : Decidable (DisjointPerChip inp out) :=
+  decidable_of_iff
+    (∀ t1 ∈ flat out, ∀ t2 ∈ flat out, Overlaps t1.2.2 t2.2.2 → t1.1 ≠ t2.1 → t1.2.1 = t2.2.1 →
+      ¬ ∃ p1 ∈ inp.placements, p1.1 = t1.1 ∧ ∃ p2 ∈ inp.placements, p2.1 = t2.1 ∧ p1.2 = p2.2)
+    (by
+      unfold DisjointPerChip
+      constructor
+      · intro h t1 h1 t2 h2 hne hres hex hov
+        obtain ⟨p1, hp1, p2, hp2, k1, k2, hs⟩ := hex
+        exact h t1 h1 t2 h2 hov hne hres ⟨p1, hp1, k1, p2, hp2, k2, hs⟩
+      · intro h t1 h1 t2 h2 hov hne hres hex
+        obtain ⟨p1, hp1, k1, p2, hp2, k2, hs⟩ := hex
+        exact h t1 h1 t2 h2 hne hres ⟨p1, hp1, p2, hp2, k1, k2, hs⟩ hov)
 instance (inp out) : Decidable (SameKeys inp out) := by unfold SameKeys; infer_instance
 set_option synthInstance.maxSize 512 in
 instance (inp out) : Decidable (Valid inp out) := by unfold Valid; infer_instance
@@ -469,6 +483,12 @@ def handle (op : String) (j : Json) : R Json := do
     pure (Json.mkObj [("well_formed", Json.bool (decide (WellFormed inp))),
       ("in_domain", Json.bool (decide (InDomain inp))),
       ("feasible", Json.bool (decide (Feasible inp)))])
+  | "hyps_domain" =>
+    -- for very large problems: `Feasible` (cubic) is not evaluated
+    let inp ← inputOfJson j
+    pure (Json.mkObj [("well_formed", Json.bool (decide (WellFormed inp))),
+      ("in_domain", Json.bool (decide (InDomain inp))),
+      ("feasible", Json.bool false)])
   | "overlap" =>
     pure (Json.bool (slicesOverlap ⟨← int j "a0", ← int j "a1"⟩ ⟨← int j "b0", ← int j "b1"⟩))
   | "align" => pure (jInt (align (← int j "v") (← int j "a")))
